@@ -31,7 +31,7 @@ ASSUMPTIONS = [
 ]
 CONFIG = {
     "quick": {"examples": 480, "shards": 16, "shrink_s": 40, "time_budget_s": 240},
-    "thorough": {"examples": 6000, "shards": 16, "shrink_s": 200, "time_budget_s": 1500},
+    "thorough": {"examples": 12000, "shards": 16, "shrink_s": 200, "time_budget_s": 1500},
 }
 
 
